@@ -56,6 +56,8 @@ CSVROWS = [
     {"pattern": "NETFLIX|UBER[amount>100]", "merchant": "BigTag", "category": "", "subcategory": "", "tags": "large"},
     {"pattern": "AMAZON", "merchant": "Amazon", "category": "Shopping", "subcategory": "Online"},
     {"pattern": r"\d+", "merchant": "Numbered", "category": "Numbered", "subcategory": "", "tags": "a|num"},
+    # a second categorising row with exactly the pattern text of the first one: it can never decide the category, but its tags count
+    {"pattern": "NETFLIX", "merchant": "Netflix Again", "category": "Other", "subcategory": "Dup", "tags": "second|Dup2"},
 ]
 MODES = ["first_match", "most_specific"]
 TXNS = R.all_txns(ctxs=R.CTX + [R.CTX_WS, R.CTX_WS2])
